@@ -59,6 +59,11 @@ pub fn run(kind: &str, args: &[String]) -> i32 {
         rep.cases += 1;
         match kind {
             "syntax" => syntax(&mut rep, idx, &case),
+            "meta" => {
+                let src = enc::from_bytes(&case["src"]);
+                let got = guarded(|| meta_answers(&src));
+                rep.check(idx, "metadata", got, &case["want"]);
+            }
             _ => {
                 eprintln!("unknown replay kind {kind}");
                 return 2;
@@ -85,4 +90,21 @@ fn syntax(rep: &mut Report, idx: usize, case: &Value) {
         });
         rep.check(idx, "iter", got, want);
     }
+}
+
+/// C19: the three metadata answers for a byte string
+pub fn meta_answers(src: &[u8]) -> Value {
+    let m = ProguardMapping::new(src);
+    let s = m.summary();
+    json!({
+        "is_valid": m.is_valid(),
+        "has_line_info": m.has_line_info(),
+        "summary": {
+            "compiler": enc::opt_s(s.compiler()),
+            "compiler_version": enc::opt_s(s.compiler_version()),
+            "min_api": match s.min_api() { None => json!([]), Some(n) => json!([enc::dec(n as u128)]) },
+            "class_count": enc::dec_usize(s.class_count()),
+            "method_count": enc::dec_usize(s.method_count()),
+        }
+    })
 }
